@@ -61,7 +61,7 @@ def run(tier, replay=None):
                       dict(case=c["id"], verdict=d, files={"main.ms": c["src"]}, stderr=[o["err"] for o in c["obs"]]))
     rep.coverage = dict(**vcov, traces_validated_against_impl=vres["recorded"],
         evaluations=len(cases), distinct_nontrivial=sum(1 for c in cases if len(c["hist"]) >= 2),
-        rule="GenObj.tla: histories over 56 operations (incl. a class whose constructor parameters and locals are named like its fields and used crosswise) (construct, methods incl. methods calling methods / returning Self / a new instance / taking another instance, field read/write/op=, list-typed field, aliasing by assignment / return / field / list element, `is`) on 3 variables + a Pair with class-typed and optional fields + a list of objects; all single operations, all/sampled pairs, seeded -simulate histories up to 8/15; everything observed after every operation; non-trivial = at least two operations",
+        rule="GenObj.tla: histories over 60 operations (incl. a linked structure whose links are cut by writing nil, `is` between objects of different classes, a class whose constructor parameters and locals are named like its fields and used crosswise) (construct, methods incl. methods calling methods / returning Self / a new instance / taking another instance, field read/write/op=, list-typed field, aliasing by assignment / return / field / list element, `is`) on 3 variables + a Pair with class-typed and optional fields + a list of objects; all single operations, all/sampled pairs, seeded -simulate histories up to 8/15; everything observed after every operation; non-trivial = at least two operations",
         samples=[dict(id=c["id"], out=c["obs"][0]["out"][-6:]) for c in cases[:: max(1, len(cases) // 3)][:3]],
         states=st["states"] + vres["states"] + g2.distinct, transitions=st["transitions"] + vres["transitions"] + g2.generated,
         out_of_model=len(skips), rejected_by_compiler=sum(1 for c in cases if c["rejected"]), executions=2 * len(cases),
